@@ -347,6 +347,73 @@ pub fn cmd_serve(st: &mut crate::State, arg: &str) -> String {
             }
             format!("{} HEALTH connected={} answered={}", status, conns.len(), ok)
         }
+        "race" => {
+            // serve race <nprefill> <nduring> <gap_us>
+            // Classic requests whose nonce starts with the sender's clock reading (microseconds, LE)
+            // taken just before send_to. <nprefill> are queued before process_events is called, the
+            // other <nduring> are sent by a second thread WHILE the server drains. Output: for every
+            // reply "t_send:MIDP" — a midpoint read when the batch is signed can never precede t_send.
+            let srv = match st.srv.as_mut() {
+                Some(s) => s,
+                None => return "NO-SERVER".into(),
+            };
+            let p: Vec<u64> = rest.split(' ').filter(|x| !x.is_empty()).map(|x| x.parse().unwrap()).collect();
+            let (npre, ndur, gap) = (p[0] as usize, p[1] as usize, p[2]);
+            let dest = format!("127.0.0.1:{}", srv.port);
+            let sock = StdUdp::bind("127.0.0.1:0").unwrap();
+            sock.set_nonblocking(true).unwrap();
+            fn stamped(k: u64) -> Vec<u8> {
+                let t = now_us() as u64;
+                let mut nonce = vec![0u8; 64];
+                nonce[..8].copy_from_slice(&t.to_le_bytes());
+                nonce[8..16].copy_from_slice(&k.to_le_bytes());
+                let mut m = roughenough::RtMessage::with_capacity(2);
+                m.add_field(roughenough::Tag::NONC, &nonce).unwrap();
+                m.add_field(roughenough::Tag::PAD, &vec![0u8; 944]).unwrap();
+                m.encode().unwrap()
+            }
+            for k in 0..npre {
+                let _ = sock.send_to(&stamped(k as u64), &dest);
+            }
+            let s2 = sock.try_clone().unwrap();
+            let d2 = dest.clone();
+            let sender = std::thread::spawn(move || {
+                for k in 0..ndur {
+                    let _ = s2.send_to(&stamped(1000 + k as u64), &d2);
+                    std::thread::sleep(Duration::from_micros(gap));
+                }
+            });
+            let mut status = String::new();
+            let mut done_rounds = 0;
+            while done_rounds < 3 {
+                status = srv.process();
+                if status == "PANIC" || status == "DEAD" {
+                    break;
+                }
+                if sender.is_finished() {
+                    done_rounds += 1;
+                }
+            }
+            let _ = sender.join();
+            let t_end = now_us();
+            let mut out = Vec::new();
+            let mut buf = [0u8; 65536];
+            while let Ok((n, _)) = sock.recv_from(&mut buf) {
+                if let Ok(m) = roughenough::RtMessage::from_bytes(&buf[..n]) {
+                    let nonce = m.get_field(roughenough::Tag::NONC).map(|x| x.to_vec()).unwrap_or_default();
+                    let midp = m
+                        .get_field(roughenough::Tag::SREP)
+                        .and_then(|b| roughenough::RtMessage::from_bytes(b).ok())
+                        .and_then(|sm| sm.get_field(roughenough::Tag::MIDP).map(|x| x.to_vec()));
+                    if let (true, Some(mp)) = (nonce.len() >= 8, midp) {
+                        let ts = u64::from_le_bytes(nonce[..8].try_into().unwrap());
+                        let mp = u64::from_le_bytes(mp[..8].try_into().unwrap());
+                        out.push(format!("{}:{}", ts, mp));
+                    }
+                }
+            }
+            format!("{} END={} RACE={}", status.split(' ').next().unwrap_or(""), t_end, out.join(","))
+        }
         "drop" => {
             if let Some(s) = st.srv.take() {
                 let _ = s.tx.send(Cmd::Quit);
@@ -364,6 +431,12 @@ pub fn cmd_serve(st: &mut crate::State, arg: &str) -> String {
 //           B (255.255.255.255:9, send_to fails with EACCES: SO_BROADCAST is not set)
 // One Responder object (reset between batches, as Server does), an AggregatedStats recorder.
 // Output per batch: the recorder's totals after the batch and the datagram lengths each socket received.
+#[cfg(not(feature = "responder_api"))]
+pub fn cmd_respond(_arg: &str) -> String {
+    "UNAVAILABLE".into()
+}
+
+#[cfg(feature = "responder_api")]
 pub fn cmd_respond(arg: &str) -> String {
     use roughenough::key::LongTermKey;
     use roughenough::responder::Responder;
